@@ -39,7 +39,7 @@ type revGen struct {
 	nextLf int
 	allMtx bool
 	noMtx  bool
-	nilPtr bool // VERIF_C20_NILPTR=1: also place nil *Stack / *Condition leaves (known open defect)
+	nilPtr bool // also place nil *Stack / *Condition leaves (they satisfy Interface; repaired by F31: skipped)
 }
 
 var revKinds = []int{1, 2, 3, 4, 6}
@@ -167,7 +167,7 @@ func (g *revGen) elem(depth int) V {
 		return g.chain(depth - 1)
 	case k < 55 && depth > 0:
 		return g.cond(depth - 1)
-	case k < 57 && g.nilPtr:
+	case k >= 55 && k < 57 && g.nilPtr:
 		return V{T: 'o', Ty: 20 + g.r.Intn(2), ID: 0}
 	}
 	return g.leaf()
@@ -185,7 +185,7 @@ func (g *revGen) only(depth int) V {
 		return V{T: 'N'}
 	case k < 85:
 		return g.zero()
-	case k < 88 && g.nilPtr:
+	case k >= 85 && k < 88 && g.nilPtr:
 		return V{T: 'o', Ty: 20 + g.r.Intn(2), ID: 0}
 	}
 	return g.leaf()
@@ -243,7 +243,7 @@ func (g *revGen) chainMin(depth, min int) V {
 }
 
 func genRevealTree(r *rand.Rand, id string, tier string) string {
-	g := &revGen{r: r, nilPtr: os.Getenv("VERIF_C20_NILPTR") == "1"}
+	g := &revGen{r: r, nilPtr: os.Getenv("VERIF_C20_NILPTR") != "0"}
 	switch r.Intn(6) {
 	case 0:
 		g.allMtx = true
